@@ -190,6 +190,11 @@ def run(db: ProgramDB, chk) -> None:
         for n in ast.walk(st):
             if isinstance(n, ast.Attribute) and isinstance(n.ctx, ast.Store) and H.is_self_attr(n):
                 tgt.add(n.attr)
+            # ... and the attributes set by a private method of the class called here (an initialiser split off __init__)
+            if isinstance(n, ast.Call) and isinstance(n.func, ast.Attribute) and H.name_id(n.func.value) == "self" and n.func.attr.startswith("_") and f"CPGraph.{n.func.attr}" in m.functions \
+                    and n.func.attr not in construct:
+                for meth_ in H.method_closure(m, "CPGraph", [n.func.attr]):
+                    tgt.update(H.attr_store_names(m.functions[f"CPGraph.{meth_}"], "self"))
     for a in post:
         stored.setdefault(a, []).append("__init__(fresh)")
     # reads outside the construction closure, anywhere in the module (self.X or <graph>.X)
